@@ -142,6 +142,26 @@ def check_case(schema, tname, val, codec=None, rw=None):
                 if not pyh.values_equal(snap(E), c):
                     return fail("mutating the array element changed the argument of extend()", holder=holder.name,
                                 field=m.name)
+                # the array as its own argument: the element once more, as an independent copy
+                if m.kind != LIMARR or m.size >= 2:
+                    from props.c10 import with_watchdog
+                    arr = getattr(H, m.name)
+                    try:
+                        with_watchdog(lambda: arr.extend(arr), 1)
+                    except RuntimeError:
+                        n = len(arr)
+                        del arr[:]
+                        return fail("a.extend(a) did not terminate within 1 s (array grew to %d elements)" % n,
+                                    holder=holder.name, field=m.name)
+                    if len(arr) != 2 or not pyh.values_equal(snap(arr[1]), d):
+                        n = len(arr)
+                        del arr[:]
+                        return fail("a.extend(a) did not append one equal copy of the element (length %d)" % n,
+                                    holder=holder.name, field=m.name)
+                    overwrite(arr[1], schema, tname, a)
+                    if not pyh.values_equal(snap(arr[0]), d):
+                        return fail("mutating the element appended by a.extend(a) changed the original element",
+                                    holder=holder.name, field=m.name)
             except Exception as ex:
                 return ("extend() scenario raised %s: %s" % (type(ex).__name__, ex),
                         {'exception': common.exc_info(ex), 'holder': holder.name, 'field': m.name})
